@@ -207,7 +207,16 @@ def gen_history(rng, emphasis):
     return {"u": u, "nk": nk, "no": no, "nc": nc, "hist": h.ops}
 
 
-def gen(rng, tier, emphasis="c05", quick=450, thorough=12000):
+# Replay of Props/C05.v C05_injective_refuted_witness on the real code: a validator is created with consensus key 5
+# while STOPPED consumer 0 still attributes key 5 to validator 0 (ValidatorConsensusKeyInUse only looks at active consumers).
+WITNESS_STOPPED = {"u": 1000, "nk": 8, "no": 4, "nc": 1,
+                   "hist": [[CREATE, 0, 0], [REGISTER], [INIT, 0], [LAUNCH, 0], [ASSIGN, 0, 0, 5, 1], [STOP, 0, 1],
+                            [CREATE, 1, 5], [SLASH, 0, 5], [END], [ASSIGN, 0, 0, 6, 1]]}
+
+
+def gen(rng, tier, emphasis="c05", quick=300, thorough=12000):
+    if emphasis == "c05":
+        yield json.loads(json.dumps(WITNESS_STOPPED))
     for _ in range(quick if tier == "quick" else thorough):
         yield gen_history(rng, emphasis)
 
